@@ -1,10 +1,10 @@
 """Binding of specs/ResultCursor.tla to the real Result implementations (C10; second binding for C55).
 
 An *impl* is a way of building a real Result over a given row sequence; every impl replays the edge tours of the graph of
-its family (the spec constant Fam/BufMax/Growth).  Every step compares the call outcome (canonical return value or the
+its configuration (an element of the spec constant Fams; the initial states of one graph range over rows x Fams).  Every step compares the call outcome (canonical return value or the
 exception class) and `closed`; every walk ends with a drain (`all()` on the base Result) compared with the spec.
 
-    impl            real object                                                                    graph family
+    impl            real object                                                                    spec configuration
     iter            IteratorResult(SimpleResultMetaData, iter(rows))                               iter
     chunk           ChunkedIteratorResult over a chunks(size) callable producing lists             chunk
     frozen          IteratorResult(...).freeze()()                                                 iter
@@ -12,8 +12,8 @@ exception class) and `closed`; every walk ends with a drain (`all()` on the base
     cursor          CursorResult over sqlite3, default CursorFetchStrategy, text SQL               default
     cursor_json     same, text().columns(JSON, JSON): result processors + tuple path               default
     cursor_merged   two CursorResults (halves) merged                                              iter
-    stream<N>       BufferedRowCursorFetchStrategy(max_row_buffer=N) installed by post_exec        buffered/N/5
-    streamg         BufferedRowCursorFetchStrategy(max_row_buffer=3, growth_factor=2)              buffered/3/2
+    stream<N>       BufferedRowCursorFetchStrategy(max_row_buffer=N) installed by post_exec        buffered<N>_5
+    streamg         BufferedRowCursorFetchStrategy(max_row_buffer=3, growth_factor=2)              buffered3_2
     full            FullyBufferedCursorFetchStrategy installed by post_exec                        full
 
 Run as a module (`python -m checks.resultcursor_driver shard.json out.json`) it replays one slice of the plan in a fresh
@@ -30,20 +30,20 @@ SZNONE = 99
 FETCH_GETTER = {"FetchOne": "one", "Next": "one", "IterStep": "it", "FetchMany": "many", "Partitions": "many"}
 
 
-def fam_key(impl):
-    """impl name -> (Fam, BufMax, Growth) of the graph it replays"""
+def cfg_of(impl):
+    """impl name -> name of the spec configuration (element of the constant Fams) whose walks it replays"""
     if impl in ("iter", "frozen", "merged", "cursor_merged"):
-        return ("iter", 2, 5)
+        return "iter"
     if impl == "chunk":
-        return ("chunk", 2, 5)
+        return "chunk"
     if impl in ("cursor", "cursor_json"):
-        return ("default", 2, 5)
+        return "default"
     if impl == "full":
-        return ("full", 2, 5)
+        return "full"
     if impl == "streamg":
-        return ("buffered", 3, 2)
+        return "buffered3_2"
     if impl.startswith("stream"):
-        return ("buffered", int(impl[6:]), 5)
+        return "buffered%d_5" % int(impl[6:])
     raise KeyError(impl)
 
 
@@ -419,13 +419,22 @@ _JOBS = None      # {gid: {"states":..., "edges":..., "walks":..., "uvals":...}}
 
 
 def slim(g, walks, uvals=()):
-    return {"states": g.states, "edges": g.edges, "walks": walks, "uvals": list(uvals)}
+    """picklable job: the graph plus the walks grouped by the configuration (Fams element) of their initial state"""
+    by = {}
+    for w in walks:
+        by.setdefault(g.states[g.edges[w[0]][0]]["cfg"], []).append(w)
+    return {"states": g.states, "edges": g.edges, "walks": by, "uvals": list(uvals)}
+
+
+def job_steps(job, cfg):
+    return sum(len(w) for w in job["walks"].get(cfg, ()))
 
 
 def _work(args):
-    gid, impl, idxs = args
+    gid, impl, cfg = args
     job = _JOBS[gid]
-    states, edges, walks = job["states"], job["edges"], job["walks"]
+    states, edges, walks = job["states"], job["edges"], job["walks"].get(cfg, [])
+    idxs = range(len(walks))
     t0 = time.time()
     drv = Driver(impl, job["uvals"])
     steps = 0
@@ -468,16 +477,15 @@ def _work(args):
 
 
 def replay(jobs, plan):
-    """in-process replay.  jobs: {gid: slim(...)}; plan: [(gid, impl)].  Returns (steps, walks, mismatches, per-impl steps)."""
+    """in-process replay.  jobs: {gid: slim(...)}; plan: [(gid, impl, cfg)].  Returns (steps, walks, mismatches, per-impl steps)."""
     global _JOBS
     _JOBS = jobs
     steps = nwalks = 0
     mism, per = [], {}
-    for gid, impl in plan:
-        n = len(jobs[gid]["walks"])
-        if n == 0:
+    for gid, impl, cfg in plan:
+        if not jobs[gid]["walks"].get(cfg):
             continue
-        r = _work((gid, impl, range(n)))
+        r = _work((gid, impl, cfg))
         steps += r[0]
         nwalks += r[1]
         mism += r[2]
@@ -499,12 +507,12 @@ def write_jobs(workdir, jobs):
 
 
 def split(plan, est, k):
-    """balance [(gid, impl)] into <= k slices by estimated steps"""
+    """balance [(gid, impl, cfg)] into <= k slices by estimated steps est[(gid, cfg)]"""
     k = max(1, min(k, len(plan)))
     bins = [[0, []] for _ in range(k)]
-    for item in sorted(plan, key=lambda it: -est[it[0]]):
+    for item in sorted(plan, key=lambda it: -est[(it[0], it[2])]):
         b = min(bins, key=lambda x: x[0])
-        b[0] += est[item[0]]
+        b[0] += est[(item[0], item[2])]
         b[1].append(item)
     return [b[1] for b in bins if b[1]]
 
@@ -514,7 +522,7 @@ def launch(workdir, name, files, plan, compiled=False):
     spec = os.path.join(workdir, "shard_%s.json" % name)
     out = os.path.join(workdir, "shard_%s.out.json" % name)
     with open(spec, "w") as f:
-        json.dump({"files": {gid: files[gid] for gid in sorted(set(g for g, _ in plan))}, "plan": plan}, f)
+        json.dump({"files": {gid: files[gid] for gid in sorted(set(it[0] for it in plan))}, "plan": plan}, f)
     env = dict(os.environ, PYTHONHASHSEED="0", PYTHONDONTWRITEBYTECODE="1")
     env.pop("PYTHONPATH", None)
     env.pop("VERIF_COMPILED", None)
